@@ -124,7 +124,9 @@ class C03(core.Property):
             cfg = draw_cfg(fams[name], rng)
             if tier == "thorough" and isinstance(cfg.get("end"), (int, float)) and rng.random() < 0.15:
                 cfg["end"] = float(cfg["end"]) * 2
-            scens.append({"family": name, "cfg": cfg, "seed": rng.randrange(2**31)})
+            # the case seed: mostly a random 31-bit value, sometimes 0 / 1 (valid seeds that look falsy / trivial)
+            sd = rng.choice([0, 0, 1]) if rng.random() < 0.08 else rng.randrange(2**31)
+            scens.append({"family": name, "cfg": cfg, "seed": sd})
         case = {"family": scens[0]["family"], "scenarios": scens}
         if tier == "thorough":   # a different third hash seed per case
             case["hashseeds"] = [0, 1, rng.randrange(2, 2**32 - 1)]
